@@ -58,3 +58,10 @@ End C09.
 Print Assumptions C09_residual_formula.
 Print Assumptions C09_coh_in_unit_interval.
 Print Assumptions C09_coherence_of_kernel_output.
+Print Assumptions C09_coh_one.
+Print Assumptions C09_swap_channels.
+Print Assumptions C09_coherent_plus_residual.
+Print Assumptions C09_auto_in_pair.
+Print Assumptions C09_kernel_cauchy_schwarz_win.
+Print Assumptions C09_kernel_cauchy_schwarz_detrend0.
+Print Assumptions C09_kernel_cauchy_schwarz_poly.
